@@ -100,8 +100,9 @@ pub struct Mode {
     /// mutator sequences of exactly 2..=seq mutators, each followed by every accessor
     pub seq: usize,
     pub boxed: bool,
+    pub deep: bool,
 }
-pub const CTOR_ONLY: Mode = Mode { sweep: false, full: false, mut1: Mut1::None, seq: 0, boxed: true };
+pub const CTOR_ONLY: Mode = Mode { sweep: false, full: false, mut1: Mut1::None, seq: 0, boxed: true, deep: false };
 
 pub struct Env<'a> {
     pub acc: &'a mut Acc,
@@ -122,7 +123,7 @@ fn errkind(e: &ViewConversionError) -> String {
 /// returns true when the (immutable slice, end placement) constructor accepted
 pub fn exercise<K: Kind>(env: &mut Env, buf: &[u8], mode: Mode) -> bool {
     let rv = K::refv(buf);
-    let mut c = Ctx { lo: 0, hi: 0, view: K::NAME, ctor: "", mseq: String::new(), case: env.case, sub: env.sub, input: buf.to_vec(), acc: env.acc, progress: env.progress, trace: env.trace, skip: env.skip, ops: 0 };
+    let mut c = Ctx { lo: 0, hi: 0, view: K::NAME, ctor: "", mseq: String::new(), case: env.case, sub: env.sub, input: buf.to_vec(), acc: env.acc, progress: env.progress, trace: env.trace, skip: env.skip, ops: 0, deep: mode.deep };
     let mut verdicts: [Option<Result<usize, String>>; 4] = [None, None, None, None];
     GUARD.with(|g| {
         // ---- constructors at both placements
@@ -233,6 +234,8 @@ pub fn exercise<K: Kind>(env: &mut Env, buf: &[u8], mode: Mode) -> bool {
             let b = g.at_start(buf);
             let (lo, len) = (b.as_ptr() as usize, b.len());
             c.begin(K::NAME, "slice@start", "", lo, lo + len);
+            let deep = c.deep;
+            c.deep = false;
             if let Ok(Ok((v, _))) = vpc::catch(|| K::V::try_from_slice(&*b)) {
                 K::acc(&mut c, v, mode.full);
             }
@@ -241,8 +244,9 @@ pub fn exercise<K: Kind>(env: &mut Env, buf: &[u8], mode: Mode) -> bool {
             c.begin(K::NAME, "mut@end", "", lo, lo + len);
             if let Ok(Ok((v, _))) = vpc::catch(|| K::V::try_from_mut_slice(b)) {
                 K::accm(&mut c, v);
-                K::acc(&mut c, v, mode.full);
+                K::acc(&mut c, v, false);
             }
+            c.deep = deep;
         }
         // ---- single mutators
         if mode.mut1 != Mut1::None || mode.seq >= 1 {
